@@ -9,6 +9,7 @@ INVARIANT FullMeshRoundTrip
 INVARIANT EdgesCoincide
 INVARIANT MultiOrdered
 INVARIANT RootOnPlane
+INVARIANT SectionExtents
 INVARIANT UnifyIsStitch
 INVARIANT Emit
 CHECK_DEADLOCK FALSE
